@@ -10,7 +10,7 @@ EXTENDS Naturals, Sequences, FiniteSets, TLC, Json, IOUtils, TLCExt
 
 T == JsonDeserialize(IOEnv.VERIF_TRACE)
 GlobalSeq == <<"collections.OrderedDict", "collections.Counter", "collections.deque",
-               "fractions.Fraction", "decimal.Decimal", "verif_sink.hit">>
+               "fractions.Fraction", "decimal.Decimal", "verif_sink.hit", "fractions.Decimal">>
 Base0 == {"collections.OrderedDict"}
 AddOf(op) == CASE op \in {"act1", "con1"} -> {"fractions.Fraction"}
                [] op \in {"act2", "con2"} -> {"collections.Counter"}
